@@ -35,7 +35,7 @@ type stage struct {
 type plan struct {
 	// Extra: a second part of the same check on the other engine; its
 	// evidence is merged into the property's evidence file.
-	Extra  *plan
+	Extra *plan
 	// EvName: evidence file base name when it differs from the property id
 	EvName string
 	ID     string
